@@ -114,6 +114,40 @@ def _classify(ctx, case, a):
         ctx.cls("float32-periods")
 
 
+def _exact_rows(ctx, a, dt, T, xi, ru, rv, ratios):
+    """The statement's bound for the rows ru / rv (library series for the non-zero periods T, ratios = T/dt) against the
+    long-double reference, with the routing of the two open known findings.  Returns (su, sv, big_u, eu, ev, tol)."""
+    n = len(a)
+    u, v = ref.response(a, dt, T, xi)
+    su, sv, big_u, big_v = ref.robust_scales(a, dt, T, u, v)
+    dur = (n - 1) * dt
+    tol = ref.tol_c01(dur, T, dt)
+    tol_rel = ref.tol_c01(dur, T, dt, relaxed=True)
+    eu = np.max(np.abs(np.asarray(ru).astype(LD) - u), axis=1).astype(float)
+    ev = np.max(np.abs(np.asarray(rv).astype(LD) - v), axis=1).astype(float)
+    for j in range(len(T)):
+        for name, e, sc in (("displacement", eu[j], su[j]), ("velocity", ev[j], sv[j])):
+            if sc == 0:
+                ctx.check(e == 0, "%s response to a zero record is not zero" % name)
+                continue
+            rel = e / sc
+            if rel <= tol[j]:
+                continue
+            if ratios[j] >= 1000 and ctx.kf("C01-KF1") and rel <= tol_rel[j]:
+                continue
+            if ratios[j] < 1000 and ctx.kf("C01-KF2"):
+                # known finding: the whole excess is explained by the truncated constant 6.2831853 -- the library series
+                # meets the same bound against the exact solution for w = 6.2831853/T
+                u2, v2 = ref.response(a, dt, ref.library_periods(T[j:j + 1]), xi)
+                lib = np.asarray(ru[j] if name == "displacement" else rv[j]).astype(LD)
+                e2 = float(np.max(np.abs(lib - (u2[0] if name == "displacement" else v2[0]))))
+                if e2 / sc <= tol[j]:
+                    continue
+            ctx.fail("%s series, T/dt=%.6g xi=%r dt=%r n=%d: max error %.3e relative to scale %.3e = %.3e > tol %.3e" % (
+                name, ratios[j], xi, dt, n, e, sc, rel, tol[j]))
+    return su, sv, big_u, eu, ev, tol
+
+
 @clause(CLAUSES, "exact", _cases(), quick=350, thorough=2200,
         rule="records of all kinds (n 2..3000), dt log-uniform [1e-4,3] + repo rates, 1-6 periods with T/dt log-uniform on "
              "[0.2,2e4] + boundary family {0.2,1,5.999,6,6.001,20,2e4}, optional leading 0, xi in {0,0.05,U(0,.99),1-10^-k}; "
@@ -137,37 +171,11 @@ def exact(case, ctx):
     ctx.shape(ra, (len(T) + s, n), "response acceleration")
     ctx.finite(ru, "response displacement")
     ctx.finite(rv, "response velocity")
-    u, v = ref.response(a, dt, T, xi)
-    su, sv, big_u, big_v = ref.robust_scales(a, dt, T, u, v)
+    ratios = np.array(case["ratios"], dtype=float)
+    su, sv, big_u, eu, ev, tol = _exact_rows(ctx, a, dt, T, xi, np.asarray(ru)[s:], np.asarray(rv)[s:], ratios)
     ctx.nt(bool(np.any(a != 0) and np.any(big_u)))
     if not np.all(big_u):
         ctx.cls("floor-binds")
-    dur = (n - 1) * dt
-    tol = ref.tol_c01(dur, T, dt)
-    tol_rel = ref.tol_c01(dur, T, dt, relaxed=True)
-    eu = np.max(np.abs(np.asarray(ru[s:]).astype(LD) - u), axis=1).astype(float)
-    ev = np.max(np.abs(np.asarray(rv[s:]).astype(LD) - v), axis=1).astype(float)
-    ratios = np.array(case["ratios"], dtype=float)
-    for j in range(len(T)):
-        for name, e, sc in (("displacement", eu[j], su[j]), ("velocity", ev[j], sv[j])):
-            if sc == 0:
-                ctx.check(e == 0, "%s response to a zero record is not zero" % name)
-                continue
-            rel = e / sc
-            if rel <= tol[j]:
-                continue
-            if ratios[j] >= 1000 and ctx.kf("C01-KF1") and rel <= tol_rel[j]:
-                continue
-            if ratios[j] < 1000 and ctx.kf("C01-KF2"):
-                # known finding: the whole excess is explained by the truncated constant 6.2831853 -- the library series
-                # meets the same bound against the exact solution for w = 6.2831853/T
-                u2, v2 = ref.response(a, dt, ref.library_periods(T[j:j + 1]), xi)
-                lib = np.asarray(ru[s + j] if name == "displacement" else rv[s + j]).astype(LD)
-                e2 = float(np.max(np.abs(lib - (u2[0] if name == "displacement" else v2[0]))))
-                if e2 / sc <= tol[j]:
-                    continue
-            ctx.fail("%s series, T/dt=%.6g xi=%r dt=%r n=%d: max error %.3e relative to scale %.3e = %.3e > tol %.3e" % (
-                name, ratios[j], xi, dt, n, e, sc, rel, tol[j]))
     ctx.notes["worst"] = float(max(np.max(eu / np.where(su > 0, su, 1) / tol), np.max(ev / np.where(sv > 0, sv, 1) / tol)))
 
 
@@ -242,3 +250,347 @@ def entry_points(case, ctx):
     if xi == 0.05:
         r5 = ctx.lib(asig.response_series, response_times=periods)
         ctx.equal(r5[0], r1[0], "AccSignal.response_series default xi")
+
+
+# ---------------------------------------------------------------------------
+# mid-range sizes: long records, many periods, large (periods x samples) products
+#
+# A code path that exists only inside a window of sizes (a loop blocked over the periods or over the samples, a
+# streamed / cached variant above some length or product) is not reached by the generators above (n <= 3000, <= 6
+# periods).  The enumerations below put one size into every octave of every size dimension of the response functions
+# (record length, number of periods, their product) and check the WHOLE output: the one-step residual bound of
+# pbt/ref/sdof_mid.py proves every sample of every row correct (or hands the row to the exact long-double loop), the
+# third-series identity and the T=0 row are checked on every element.
+
+from pbt import core  # noqa: E402
+from pbt.core import enum_clause, TINY  # noqa: E402
+from pbt.ref import sdof_mid as mid  # noqa: E402
+
+ASSUMPTIONS.extend([
+    "mid-range enumerations: same domain as above with n up to 3e5 (quick) / 1.2e6 (thorough), 1..3000 (6000) periods and "
+    "periods x samples up to 3e7 (6e7); records are noise x envelope, noise + mean, sines + noise and (n <= 30 000) smoothed "
+    "walks, all with a non-zero mean and no silent stretch; period lists of more than 6 entries are distinct, unsorted and "
+    "log-spread over a hash-chosen sub-range of [0.2, 2e4] dt",
+    "mid-range oracle: a row is accepted when the sound energy-norm bound on its error (sum of the one-step residuals "
+    "against the long-double propagators, pbt/ref/sdof_mid.py) is within the statement tolerance of the robust scale "
+    "(peak of the library row minus the bound, floored as above); every other row is compared sample by sample with "
+    "the long-double reference exactly as in the clause 'exact' - a violation is only ever reported by that comparison",
+    "AccSignal.response_series: response_times=None means the periods stored on the object (constructor, property or "
+    "previous call), xi=-1 means 0.05 (the documented default), as the pinned signature and docstring say",
+])
+
+
+def _oct(prefix, v):
+    return "%s~2^%d" % (prefix, int(np.floor(np.log2(max(1, v)))))
+
+
+def _acc_identity_all(ctx, T, xi, ru, rv, ra, what):
+    """third series == -(2 xi w v + w^2 u) on every element (rows of the non-zero periods), chunked over rows."""
+    p, n = ru.shape
+    w = 2 * np.pi / T
+    rows = max(1, (1 << 21) // max(1, n))
+    for j0 in range(0, p, rows):
+        j1 = min(p, j0 + rows)
+        t1 = 2 * xi * w[j0:j1, None] * rv[j0:j1]
+        t2 = (w[j0:j1] ** 2)[:, None] * ru[j0:j1]
+        scale = np.max(np.abs(t1) + np.abs(t2), axis=1)
+        d = np.abs(ra[j0:j1] + (t1 + t2))
+        bad = ~(d <= 1e-8 * scale[:, None] + TINY)
+        if np.any(bad):
+            r, c = np.argwhere(bad)[0]
+            ctx.fail("%s: third series vs -(2 xi w v + w^2 u): |diff|=%.3e > %.3e at row %d (of %d) sample %d (of %d), %d elements out" % (
+                what, d[r, c], 1e-8 * scale[r], j0 + r, p, c, n, int(np.sum(bad))))
+
+
+def _exact_all(ctx, a, dt, T, xi, ru, rv, what):
+    """Displacement and velocity rows of all non-zero periods, every sample.  Returns True when some row's peak exceeds
+    the one-step floor (the non-trivial rule)."""
+    n = len(a)
+    ratios = T / dt
+    amax = float(np.max(np.abs(a)))
+    if amax == 0:
+        ctx.check(not np.any(ru) and not np.any(rv), "%s: response to a zero record is not zero" % what)
+        return False
+    bu, bv = mid.residual_bounds(a, dt, T, xi, ru, rv)
+    w = 2 * np.pi / T
+    fu = amax * np.minimum(dt * dt / 2, 1.0 / w ** 2)
+    fv = amax * np.minimum(dt, 1.0 / w)
+    pu = np.max(np.abs(ru), axis=1)
+    pv = np.max(np.abs(rv), axis=1)
+    su_lo = np.maximum(pu - bu, fu)   # a lower bound of the robust scale of the exact series
+    sv_lo = np.maximum(pv - bv, fv)
+    tol = ref.tol_c01((n - 1) * dt, T, dt)
+    q = np.maximum(bu / (tol * su_lo), bv / (tol * sv_lo))
+    q = np.where(np.isfinite(q), q, np.inf)
+    pending = np.flatnonzero(~(q <= 1.0))
+    ctx.notes["bound/tol"] = float(np.max(q))
+    if len(pending):
+        ctx.cls("exact-loop")
+        order = pending[np.argsort(-q[pending], kind="stable")]
+        k0, step = 0, 16
+        while k0 < len(order):
+            idx = np.sort(order[k0:k0 + step])
+            try:
+                _exact_rows(ctx, a, dt, T[idx], xi, ru[idx], rv[idx], ratios[idx])
+            except core.Violation as v:
+                raise core.Violation("%s: row(s) %s of %d: %s" % (what, idx[:6].tolist(), len(T), v))
+            k0 += step
+            step = 64
+    return bool(np.any(pu > fu + bu))
+
+
+def _check_whole(ctx, a, a_ref, dt, T, s, xi, res, what):
+    """Every sentence of the statement on the whole output `res` of one call (a = record as passed, a_ref = pristine copy)."""
+    n = len(a_ref)
+    ctx.check(isinstance(res, (tuple, list)) and len(res) == 3, "%s: result is not a triple" % what)
+    ru, rv, ra = (np.asarray(x) for x in res)
+    for x, name in ((ru, "displacement"), (rv, "velocity"), (ra, "acceleration")):
+        ctx.shape(x, (len(T) + s, n), "%s: response %s" % (what, name))
+    ctx.finite(ru, "%s: response displacement" % what)
+    ctx.finite(rv, "%s: response velocity" % what)
+    ctx.equal(np.asarray(a, dtype=float), a_ref, "%s: record mutated" % what)
+    if s:
+        ctx.check(not np.any(ru[0]) and not np.any(rv[0]), "%s: T=0 row of displacement/velocity is not identically zero" % what)
+        ctx.equal(ra[0], -a_ref, "%s: T=0 row of the acceleration series vs sign-flipped record" % what)
+    _acc_identity_all(ctx, T, xi, ru[s:], rv[s:], ra[s:], what)
+    return _exact_all(ctx, a_ref, dt, T, xi, ru[s:], rv[s:], what)
+
+
+def _pcase(dt, ratios, lead0, container, int_periods=None):
+    """Argument of _periods() / _T64()."""
+    c = {"dt": dt, "ratios": ratios, "lead0": lead0, "container": container}
+    if int_periods:
+        c["int_periods"] = int_periods
+    return c
+
+
+def _cfg(tier):
+    if tier == "quick":
+        return dict(n=(2000, 300000, 12, "c01-n"), n_mined=(2000, 70000, 4), fn_max=60000,
+                    p=(7, 3000, 10, "c01-p", 6), pn=(150, 1500),
+                    prod=(1e5, 3e7, 11, "c01-prod"), prod_p=(8, 3000), prod_n=(400, 100000))
+    return dict(n=(2000, 1200000, 26, "c01-n-th"), n_mined=(2000, 300000, 12), fn_max=200000,
+                p=(7, 6000, 24, "c01-p-th", 16), pn=(150, 3000),
+                prod=(1e5, 6e7, 24, "c01-prod-th"), prod_p=(8, 6000), prod_n=(400, 300000))
+
+
+def _sharded(cases, shard, nshards, cost):
+    """Heaviest first, then round-robin: the shards get similar loads."""
+    cases = sorted(cases, key=lambda c: (-cost(c), core.canon(c)))
+    for i, c in enumerate(cases):
+        if i % nshards == shard:
+            yield c
+
+
+CONTAINERS = ["ndarray", "list", "tuple", "float32"]
+REC_AS = [None, None, "list", "view", "negstride", "readonly"]
+FORMS = [[True, True], [True, False], [False, True], [False, False]]   # [response_times given, xi given]
+HIST_OPS = ["periods", "xi", "values", "same"]
+
+
+def _mk_long_case(n, entry, idx, k=0, last=False):
+    """idx: running index of the case, k: running index among the object-level cases (rotates the history operation)."""
+    sd = int(mid.hu("c01-long", gen.run_seed(), idx, n, entry) * (2 ** 31 - 2))
+    kinds = mid.RECORD_KINDS if n <= 30000 else mid.RECORD_KINDS[:3]
+    npd = mid.hint(1, 5, "np", sd)
+    c = {"n": int(n), "entry": entry, "seed": sd, "kind": mid.hpick(kinds, "kind", sd), "dt": mid.dt_from_hash(sd),
+         "ratios": mid.ratios_from_hash(npd, 0.2, 2e4, sd), "xi": mid.xi_from_hash(sd),
+         "lead0": bool(last or mid.hu("lead0", sd) < 0.4), "container": mid.hpick(CONTAINERS, "cont", sd)}
+    if entry == "object":
+        c["form1"] = mid.hpick(FORMS, "form1", sd)
+        c["set_by"] = mid.hpick(["ctor", "property"], "setby", sd)
+        if not last:
+            np2 = mid.hint(1, 5, "np2", sd)
+            c["hist"] = {"op": HIST_OPS[(k + gen.run_seed()) % 4], "form2": mid.hpick(FORMS, "form2", sd),
+                         "ratios2": mid.ratios_from_hash(np2, 0.2, 2e4, sd, 2), "xi2": mid.xi_from_hash(sd, 2),
+                         "lead02": mid.hu("lead02", sd) < 0.4, "kind2": mid.hpick(kinds, "kind2", sd),
+                         "n2": int(n if mid.hu("n2same", sd) < 0.5 else n - mid.hint(1, 40, "n2", sd))}
+    else:
+        c["rec_as"] = mid.hpick(REC_AS, "recas", sd) if n <= 100000 else mid.hpick([None, "view", "negstride", "readonly"], "recas", sd)
+    return c
+
+
+def _n_enum(tier, shard, nshards):
+    cfg = _cfg(tier)
+    lo, hi, count, tag = cfg["n"]
+    sizes = sorted(set(gen.ladder(lo, hi, count, tag)) | set(gen.mined_sizes(cfg["n_mined"][0], cfg["n_mined"][1], cfg["n_mined"][2], tag)))
+    cases = []
+    idx = 0
+    for k, n in enumerate(sizes):
+        for entry in ["object"] + (["response_series", "nigam"] if n <= cfg["fn_max"] else []):
+            cases.append(_mk_long_case(n, entry, idx, k))
+            idx += 1
+    # the end of the range itself: one call through the outermost entry point, with a T=0 row
+    cases.append(_mk_long_case(hi, "object", idx, last=True))
+    return _sharded(cases, shard, nshards, lambda c: c["n"] * (2 if c.get("hist") else 1))
+
+
+def _object_call(ctx, asig, P, xi, form, set_by_property):
+    """AccSignal.response_series in one of the four spellings of its two optional arguments; returns (result, effective xi)."""
+    kw = {}
+    if form[0]:
+        kw["response_times"] = P
+    elif set_by_property:
+        asig.response_times = P
+    if form[1]:
+        kw["xi"] = xi
+    return ctx.lib(asig.response_series, **kw), (xi if form[1] else 0.05)
+
+
+@enum_clause(CLAUSES, "mid-range", _n_enum,
+             rule="record-length ladder: one length per logarithmic bin of [2000, 3e5] (12 bins; thorough [2000, 1.2e6], 26 bins) placed by a "
+                  "hash of VERIF_SEED, the end of the range, and lengths next to integer literals of the source under test; 1-5 periods "
+                  "(T/dt log-uniform [0.2, 2e4] + boundary family), optional leading 0, all xi families, four period containers; every "
+                  "length through AccSignal.response_series with a two-call history (new periods | new xi | reset_values | same request; "
+                  "all four spellings of the optional arguments), lengths <= 60 000 (2e5) also through response_series and "
+                  "nigam_and_jennings_response with list / strided / read-only records; non-trivial = non-zero record and a peak above the floor",
+             oracle="reference model on the whole output: one-step residual bound against the long-double propagators for every sample of "
+                    "every row (undecided rows: exact long-double loop, statement tolerance, known-finding routing as 'exact'); third-series "
+                    "identity and T=0 row on every element; shapes, finiteness, record not mutated",
+             exhaustive_note="one case per ladder length and entry point (not an exhaustive space: the lengths move with VERIF_SEED)",
+             min_nontrivial=0.5, quick_shards=4)
+def mid_range(case, ctx):
+    n, dt, xi = case["n"], case["dt"], case["xi"]
+    a = mid.record(case["kind"], n, case["seed"])
+    a_ref = a.copy()
+    pc = _pcase(dt, case["ratios"], case["lead0"], case["container"])
+    P, T, s = _periods(pc), _T64(pc), (1 if case["lead0"] else 0)
+    ctx.cls(_oct("n", n), "entry=" + case["entry"], "kind=" + case["kind"], "lead0" if s else None,
+            "T<6dt" if np.any(T / dt < 6) else None, "T>=1000dt" if np.any(T / dt >= 1000) else None)
+    if case["entry"] != "object":
+        fn = sdof.response_series if case["entry"] == "response_series" else sdof.nigam_and_jennings_response
+        arg = gen.as_container({"as": case.get("rec_as")}, a)
+        ctx.cls("as=%s" % case.get("rec_as"))
+        res = ctx.lib(fn, arg, dt, P, xi)
+        ctx.nt(_check_whole(ctx, arg, a_ref, dt, T, s, xi, res, "%s, n=%d" % (case["entry"], n)))
+        return
+    form1 = case["form1"]
+    ctx.cls("form=%d%d" % (form1[0], form1[1]))
+    by_prop = case["set_by"] == "property"
+    if form1[0] or by_prop:
+        asig = ctx.lib(eqsig.AccSignal, a, dt)
+    else:
+        asig = ctx.lib(eqsig.AccSignal, a, dt, response_times=P)
+    res, xe = _object_call(ctx, asig, P, xi, form1, by_prop)
+    nt = _check_whole(ctx, a, a_ref, dt, T, s, xe, res, "AccSignal.response_series, n=%d" % n)
+    h = case.get("hist")
+    if h:
+        ctx.cls("hist=" + h["op"])
+        op = h["op"]
+        pc2, xi2, a2 = pc, xi, a_ref
+        if op == "periods":
+            pc2 = _pcase(dt, h["ratios2"], h["lead02"], case["container"])
+            xi2 = h["xi2"] if mid.hu("alsoxi", case["seed"]) < 0.5 else xi
+        elif op == "xi":
+            xi2 = h["xi2"]
+        elif op == "values":
+            a2 = mid.record(h["kind2"], h["n2"], case["seed"] + 1)
+            ctx.lib(asig.reset_values, a2.copy())
+        P2, T2, s2 = _periods(pc2), _T64(pc2), (1 if pc2["lead0"] else 0)
+        form2 = h["form2"] if op != "periods" else [True, h["form2"][1]]
+        res2, xe2 = _object_call(ctx, asig, P2, xi2, form2, True)
+        nt2 = _check_whole(ctx, a2, a2.copy(), dt, T2, s2, xe2, res2,
+                           "AccSignal.response_series, second call after '%s' (form %s), n=%d" % (op, form2, len(a2)))
+        nt = nt or nt2
+    ctx.nt(nt)
+
+
+# --- many periods, and large periods x samples products -----------------------------------------------------------
+
+ENTRIES = ["object", "response_series", "nigam"]
+
+
+def _mk_wide_case(npd, n, idx, lead0, tag):
+    sd = int(mid.hu("c01-wide", tag, gen.run_seed(), idx, npd, n) * (2 ** 31 - 2))
+    rlo = mid.hlog(0.2, 200.0, "rlo", sd)
+    c = {"np": int(npd), "n": int(n), "seed": sd, "kind": mid.hpick(mid.RECORD_KINDS, "kind", sd), "dt": mid.dt_from_hash(sd),
+         "rlo": rlo, "rhi": min(2e4, rlo * mid.hlog(30.0, 1e5, "rspan", sd)), "xi": mid.xi_from_hash(sd), "lead0": bool(lead0),
+         "container": mid.hpick(CONTAINERS, "cont", sd), "entry": ENTRIES[(idx + gen.run_seed()) % 3],
+         "int": mid.hu("int", sd) < 0.2}
+    if c["int"]:
+        c["dt"] = 1.0 if mid.hu("intdt", sd) < 0.5 else 0.5
+    return c
+
+
+def _wide_inputs(case):
+    """(record, period-case for _periods/_T64) of a many-periods case: pure function of the case."""
+    a = mid.record(case["kind"], case["n"], case["seed"])
+    npd, dt = case["np"], case["dt"]
+    if case["int"]:
+        rs = np.random.RandomState(case["seed"] % (2 ** 31 - 1))
+        ints = (rs.permutation(int(min(2e4 * dt, max(2 * npd, 50)))) + 1)[:npd]
+        ints = [int(t) for t in ints]
+        pc = _pcase(dt, [t / dt for t in ints], case["lead0"], case["container"], int_periods=ints)
+    else:
+        pc = _pcase(dt, mid.spread_ratios(npd, case["rlo"], case["rhi"], case["seed"]), case["lead0"], case["container"])
+    return a, pc
+
+
+def _wide_check(case, ctx, differential):
+    n, dt, xi = case["n"], case["dt"], case["xi"]
+    a, pc = _wide_inputs(case)
+    a_ref = a.copy()
+    P, T, s = _periods(pc), _T64(pc), (1 if case["lead0"] else 0)
+    ctx.cls(_oct("P", case["np"]), _oct("n", n), _oct("PxN", case["np"] * n), "entry=" + case["entry"], "lead0" if s else None,
+            "int-periods" if case["int"] else None, "container=" + case["container"])
+    what = "%s, %d periods%s x %d samples" % (case["entry"], case["np"], " + leading 0" if s else "", n)
+    if case["entry"] == "object":
+        asig = ctx.lib(eqsig.AccSignal, a, dt)
+        res = ctx.lib(asig.response_series, response_times=P, xi=xi)
+    else:
+        fn = sdof.response_series if case["entry"] == "response_series" else sdof.nigam_and_jennings_response
+        res = ctx.lib(fn, a, dt, P, xi)
+    ctx.nt(_check_whole(ctx, a, a_ref, dt, T, s, xi, res, what))
+    if s and differential:
+        # the rows of the non-zero periods do not depend on the leading 0 (exact: same operations on the same numbers)
+        q = ctx.lib(sdof.response_series, a, dt, _periods(pc, False), xi)
+        for k, name in enumerate(("displacement", "velocity", "acceleration")):
+            ctx.equal(np.asarray(res[k])[1:], np.asarray(q[k]), "%s: %s rows with vs without the leading 0" % (what, name))
+
+
+def _p_enum(tier, shard, nshards):
+    cfg = _cfg(tier)
+    lo, hi, count, tag, mlim = cfg["p"]
+    sizes = sorted(set(gen.size_ladder(lo, hi, count, tag, mined_limit=mlim)) | {hi})
+    cases = []
+    for k, npd in enumerate(sizes):
+        for lead0 in (False, True):
+            n = mid.hlogint(cfg["pn"][0], cfg["pn"][1], "pn", gen.run_seed(), tag, npd, lead0)
+            cases.append(_mk_wide_case(npd, n, 2 * k + int(lead0), lead0, tag))
+    return _sharded(cases, shard, nshards, lambda c: c["n"] * (12.0 + 0.1 * c["np"]))
+
+
+@enum_clause(CLAUSES, "mid-range-periods", _p_enum,
+             rule="period-count ladder: one count per logarithmic bin of [7, 3000] (10 bins; thorough [7, 6000], 24 bins), the end of the "
+                  "range and counts next to integer literals of the source under test, each with and without a leading 0; distinct, "
+                  "unsorted periods log-spread over a hash-chosen sub-range of [0.2, 2e4] dt (or distinct python ints); ndarray / list / "
+                  "tuple / float32 containers; records of 150-1500 (3000) samples; the three entry points in rotation; "
+                  "non-trivial = non-zero record and a peak above the floor",
+             oracle="reference model on the whole output as 'mid-range' (every sample of every row) + differential: rows with vs "
+                    "without the leading 0 are array_equal",
+             exhaustive_note="one case per ladder count and leading-0 variant (the counts move with VERIF_SEED)",
+             min_nontrivial=0.5, quick_shards=4)
+def mid_range_periods(case, ctx):
+    _wide_check(case, ctx, differential=True)
+
+
+def _prod_enum(tier, shard, nshards):
+    cfg = _cfg(tier)
+    lo, hi, count, tag = cfg["prod"]
+    pairs = gen.product_pairs(lo, hi, count, cfg["prod_p"], cfg["prod_n"], tag)
+    cases = []
+    for k, (npd, n) in enumerate(pairs):
+        cases.append(_mk_wide_case(npd, n, k, mid.hu("prod-lead0", gen.run_seed(), tag, k) < 0.5, tag))
+    return _sharded(cases, shard, nshards, lambda c: c["n"] * (12.0 + 0.1 * c["np"]))
+
+
+@enum_clause(CLAUSES, "mid-range-products", _prod_enum,
+             rule="(periods x samples) ladder: one product per logarithmic bin of [1e5, 3e7] (11 bins; thorough [1e5, 6e7], 24 bins) and "
+                  "products just above integer literals of the source under test, split by hash into 8..3000 (6000) periods x "
+                  "400..100 000 (300 000) samples; leading 0 in half of the cases; period lists, containers and entry points as "
+                  "'mid-range-periods'; non-trivial = non-zero record and a peak above the floor",
+             oracle="reference model on the whole output as 'mid-range' (every sample of every row)",
+             exhaustive_note="one case per ladder product (the products and their splits move with VERIF_SEED)",
+             min_nontrivial=0.5, quick_shards=4)
+def mid_range_products(case, ctx):
+    _wide_check(case, ctx, differential=False)
